@@ -312,3 +312,63 @@ def reference_formats(name, pos, kw):
         except TypeError:
             out[key] = {'err': 'TypeError'}
     return out
+
+
+# --------------------------------------------------------------------------- float reference of the evaluation
+# Written from the SuperCollider Env help ("Segment shapes") and the EnvGen semantics, in forms that do
+# not copy sc3's expressions (e.g. the falling Welch side through cos).  Used with a tolerance.
+def _ssqrt(x):
+    return math.copysign(math.sqrt(abs(x)), x)
+
+
+def _scbrt(x):
+    return math.copysign(abs(x) ** (1.0 / 3.0), x)
+
+
+def shape_value(curve, s, t, pos):
+    """value at relative position pos in [0, 1) of a segment from level s to level t"""
+    s, t = float(s), float(t)
+    if not isinstance(curve, str):
+        c = float(curve)
+        if abs(c) < 0.0001:
+            return s + (t - s) * pos
+        return s + (t - s) * math.expm1(pos * c) / math.expm1(c)
+    k = SERVER_SHAPES[curve]
+    if k == 0:
+        return t
+    if k == 8:
+        return s
+    if k == 1:
+        return s + (t - s) * pos
+    if k == 2:
+        return 0.0 if s == 0 else s * math.exp(pos * math.log(t / s))
+    if k == 3:
+        return s + (t - s) * math.sin(math.pi * pos / 2) ** 2
+    if k == 4:
+        return s + (t - s) * math.sin(math.pi * pos / 2) if s < t else t + (s - t) * math.cos(math.pi * pos / 2)
+    if k == 6:
+        r = _ssqrt(s) + pos * (_ssqrt(t) - _ssqrt(s))
+        return r * abs(r)
+    if k == 7:
+        r = _scbrt(s) + pos * (_scbrt(t) - _scbrt(s))
+        return r ** 3
+    raise KeyError(curve)
+
+
+def reference_at(levels, times, curves, offset, t):
+    T = _aslist(times, [1, 1])
+    C = list(curves) if isinstance(curves, list) else [curves]
+    rel = max(0.0, t - offset)
+    start, begin = float(levels[0]), 0.0
+    for i in range(len(levels) - 1):
+        d = T[i % len(T)]
+        if rel < begin + d:
+            return shape_value(C[i % len(C)], start, levels[i + 1], (rel - begin) / d)
+        start, begin = float(levels[i + 1]), begin + d
+    return start
+
+
+def shape_tolerance(curve, scale):
+    """cubed: sc3 uses the literal exponent 0.3333333 (relative error about 1e-7 * |ln|level||)"""
+    rel = 2e-5 if (isinstance(curve, str) and SERVER_SHAPES.get(curve) == 7) else 1e-9
+    return rel * max(1.0, scale)
